@@ -40,6 +40,21 @@ def _format_error(interp, args, kwargs):
     ctx = interp.ctx
     eng = interp.engine
     kind = args[0]
+    if isinstance(kind, SV) and kind.ty.name in ("Str", "Opt"):
+        # a kind computed by the code (e.g. chosen by a helper): split on the registered kinds it can be - only candidates whose text occurs
+        # in the path condition are tried, the rest is one "none of them" branch that stays unsupported
+        if kind.ty.name == "Opt":
+            kind = ctx.unopt(kind, "TypeError", "format_error(None)")
+        term = ctx.strs.to_native(kind)
+        mentioned = " ".join(p_.sexpr() for p_ in ctx.pc)
+        chosen = None
+        for cand in sorted(eng.errtab):
+            if ('"' + cand + '"') in mentioned and ctx.decide(term == z3.StringVal(cand), "error-kind"):
+                chosen = cand
+                break
+        if chosen is None:
+            raise Unsupported("format_error with a symbolic error kind outside the registered kinds mentioned on this path")
+        kind = chosen
     if not isinstance(kind, str):
         raise Unsupported("format_error with a symbolic error kind")
     entry = eng.errtab.get(kind)
